@@ -563,7 +563,9 @@ class MSRun:
         # ---- C12: a receiver only ever waits when there is nothing to receive (state invariant, every step) ----
         live_after = [t for t in pend_recv if not self.cur[t]["creq"]]
         if wr1 > 0 and (buf1 > 0 or ws1 > 0):
-            self._viol("C12", f"{buf1} item(s) sit in the buffer and {ws1} sender(s) are blocked while "
+            # (also the third conjunct of C13_close_wakes_all: it is what makes "receivers are woken after the remaining
+            #  items have been handed out" true, so the C13 check reports it as well)
+            self._viol("both", f"{buf1} item(s) sit in the buffer and {ws1} sender(s) are blocked while "
                               f"{wr1} receiver(s) are waiting (blocked receivers without pending cancellation: {live_after})")
         elif live_after and (buf1 > 0 or ws1 > 0):
             self._viol("C12", f"{buf1} item(s) sit in the buffer and {ws1} sender(s) are blocked while receiver task(s) "
@@ -714,6 +716,10 @@ class MSRun:
             self.flags.add("receiver_blocks")
         if recv_wake and code == CANCELLED:
             self.flags.add("blocked_receive_cancelled")
+            if before != after and not (wr1 == wr0 - 1 and [buf1, os1, or1, ws1] == [buf0, os0, or0, ws0]):
+                self._viol("both", f"a receive that ended with a cancellation changed the stream: buffer {buf0}->{buf1}, "
+                                   f"blocked senders {ws0}->{ws1}, waiting receivers {wr0}->{wr1} (it may only remove its own "
+                                   f"queue entry)")
         if recv_wake and info.get("creq_pending") and code != CANCELLED:
             what = "popped from the waiting queue without an item" if info.get("skipped_at") else "cancelled while blocked"
             self._viol("C12", f"receiver task {a} was {what} but its receive ended with {RESN[code]} instead of a cancellation")
@@ -957,14 +963,30 @@ def directed_case(rng: random.Random, profile: str):
                 for t in recvs:
                     if r.world.runnable(r.world.puppets[t]):
                         r.do(RESUME, t, 0, 0)
-                heads = recvs[:rng.choice([1, 1, 2])] if len(recvs) > 2 else recvs[:1]
+                handover_first = rng.random() < 0.4
+                if handover_first:
+                    # variant: a send hands its item to the FIRST receiver, which is then cancelled NATIVELY before its
+                    # wake-up runs (only a native Task.cancel() can land after the hand-over; documented scope: that
+                    # item is lost with the receiver); the other receivers are still queued; then close / further sends
+                    p = r.world.puppets[sender]
+                    if p.at_decision:
+                        x = r.next_item
+                        r.next_item += 1
+                        r.do(SENDNW, sender, rng.choice(sh), x)
+                    t0 = recvs[0]
+                    if not r.world.puppets[t0].at_decision:
+                        r.do(CANCEL, t0, 0, 0)
+                        if rng.random() < 0.6 and r.world.runnable(r.world.puppets[t0]):
+                            r.do(RESUME, t0, 0, 0)
+                    r.flags.add("directed_native_cancel_after_handover_with_queued_receivers")
+                heads = [] if handover_first else (recvs[:rng.choice([1, 1, 2])] if len(recvs) > 2 else recvs[:1])
                 for t in heads:
                     p = r.world.puppets[t]
                     if p.at_decision:
                         continue
                     scoped = r.cur[t] and r.cur[t].get("scope") is not None
                     r.do(SCANCEL if (scoped and rng.random() < 0.6) else CANCEL, t, 0, 0)
-                for _ in range(rng.choice([1, 1, 2, 3])):
+                for _ in range(rng.choice([0, 1, 1, 2]) if handover_first else rng.choice([1, 1, 2, 3])):
                     p = r.world.puppets[sender]
                     if not p.at_decision:
                         break
@@ -974,7 +996,7 @@ def directed_case(rng: random.Random, profile: str):
                     r.do(kind, sender, rng.choice(sh), x)
                     if kind != SENDNW and r.world.runnable(p):
                         r.do(RESUME, sender, 0, 0)
-                if rng.random() < (0.6 if profile == "C13" else 0.3):
+                if rng.random() < (0.6 if profile == "C13" else 0.3) or (handover_first and rng.random() < 0.5):
                     for h in [h for h, (sd, o) in r.m_handles.items() if sd == "send" and o]:
                         r.do(CLOSE, 0, h, 0)
                 order = [t for t, p in r.world.puppets.items() if not p.at_decision]
@@ -1077,6 +1099,12 @@ def scenario_cases():
     S.append((0, 2, [SEND_SHAPE0 + 2, 1, 0, 1, RESUME, 1, 0, 0, RECVNW, 2, 1, 0, RESUME, 1, 0, 0]))
     # effectively cancelled through the PARENT scope: equivalent to ScopeCancel
     S.append((0, 2, [RECV_SHAPE0 + 6, 1, 1, 0, RESUME, 1, 0, 0, SCANCEL, 1, 0, 0, SENDNW, 2, 0, 1, RESUME, 1, 0, 0]))
+    # hand-over to the first of two receivers, native cancel of it before it runs (documented loss of THAT item), the
+    # second receiver still queued: then the send side closes (EndOfStream, nothing buffered) / a further item arrives
+    S.append((0, 3, [RECV, 1, 1, 0, RESUME, 1, 0, 0, RECV, 2, 1, 0, RESUME, 2, 0, 0, SENDNW, 3, 0, 1, CANCEL, 1, 0, 0,
+                     RESUME, 1, 0, 0, CLOSE, 0, 0, 0, RESUME, 2, 0, 0]))
+    S.append((1, 3, [RECV, 1, 1, 0, RESUME, 1, 0, 0, RECV, 2, 1, 0, RESUME, 2, 0, 0, SENDNW, 3, 0, 1, CANCEL, 1, 0, 0,
+                     RESUME, 1, 0, 0, SENDNW, 3, 0, 2, RESUME, 2, 0, 0, RECVNW, 1, 1, 0]))
     # O-own-close (recorded decision): a receiver blocked on a handle that someone else closes stays blocked while the
     # send side is open, every send is refused, the close of the send side releases it with EndOfStream
     S.append((0, 2, [RECV, 1, 1, 0, RESUME, 1, 0, 0, CLOSE, 0, 1, 0, SENDNW, 2, 0, 1, CLOSE, 0, 0, 0, RESUME, 1, 0, 0]))
@@ -1102,12 +1130,13 @@ NEED_FLAGS = {
             "receiver_skipped_by_send", "skipped_receiver_ends_cancelled", "receiver_blocked_inside_shield",
             "receiver_blocked_shielded_in_cancelled_scope", "receiver_blocked_shielded_under_expired_deadline",
             "shielded_receiver_served", "clock_passes_deadline", "deadline_timer_fires",
-            "outer_scope_cancelled_around_shield"],
+            "outer_scope_cancelled_around_shield", "directed_native_cancel_after_handover_with_queued_receivers"],
     "C13": ["clone", "double_close", "eos", "broken", "eos_wakes_blocked_receiver", "broken_wakes_blocked_sender",
             "last_send_close_with_blocked_receivers", "last_recv_close_with_blocked_senders",
             "receive_side_closed_with_buffered_items", "items_stay_in_buffer_after_receive_side_closed",
             "two_or_more_blocked_receivers", "send_meets_cancelled_head_and_live_receiver", "O-own-close",
-            "O-own-close-sender"],
+            "O-own-close-sender", "directed_native_cancel_after_handover_with_queued_receivers",
+            "native_cancel_in_handover_cycle"],
 }
 NONTRIVIAL = {
     "C12": {"handed_to_blocked_receiver", "receive_takes_from_blocked_sender", "cancel_blocked_receiver",
@@ -1201,8 +1230,13 @@ def case_of(r: MSRun):
     return [r.maxcode()] + r.ops
 
 
-def shrink(maxbuf, ntasks, ops, prop):
-    """Drop ops while a monitor of `prop` still trips (cheap greedy pass)."""
+def msg_key(msg: str) -> str:
+    return msg.split(":", 1)[-1][:40]
+
+
+def shrink(maxbuf, ntasks, ops, prop, want_key=None):
+    """Drop ops while a monitor of `prop` still trips - the SAME monitor (message class `want_key`) if given, so that a
+    clause-level violation is not shrunk away into a simpler symptom of the same defect (cheap greedy pass)."""
     def trips(o):
         try:
             r = run_script(maxbuf, ntasks, o)
@@ -1211,6 +1245,9 @@ def shrink(maxbuf, ntasks, ops, prop):
         if r.infeasible or r.crash:
             return None
         hits = [m for (p, m) in r.mon if p in (prop, "both")]
+        if want_key is not None:
+            hits = [m for m in hits if msg_key(m) == want_key] + [m for m in hits if msg_key(m) != want_key] \
+                if any(msg_key(m) == want_key for m in hits) else []
         return (r, hits) if hits else None
 
     # a scripted case may contain ops the (possibly modified) implementation could not perform: drop those first
@@ -1347,15 +1384,15 @@ def check(prop: str, tier: str) -> int:
     seen_msgs = set()
     reported = 0
     for r, msg in sorted(monitor_hits, key=lambda rm: len(rm[0].ops)):
-        key = msg.split(":", 1)[-1][:40]
-        if key in seen_msgs or reported >= 4:
+        key = msg_key(msg)
+        if key in seen_msgs or reported >= 6:
             continue
         seen_msgs.add(key)
         reported += 1
         ops = r.ops[:r.prefix_len] if hasattr(r, "prefix_len") else r.ops
         sh = None
         try:
-            sh = shrink(r.maxbuf, r.ntasks, ops, prop)
+            sh = shrink(r.maxbuf, r.ntasks, ops, prop, want_key=key)
         except BaseException:  # noqa: BLE001
             sh = None
         if sh is not None:
